@@ -7,6 +7,7 @@ import glob, mmap, os, shutil, signal, socket, struct, subprocess, time
 import vlib
 
 MAGIC = 0x00606D4B
+MAGIC_BYTES = bytes.fromhex("00606d4b")
 VERSION = 4
 T_ENC_REQ, T_ENC_RSP, T_DEC_REQ, T_DEC_RSP, T_AUTH_FD = 2, 3, 4, 5, 6
 UID_ANY = 0xFFFFFFFF
@@ -240,8 +241,39 @@ def recv_all(s, n):
     return b
 
 
+class DaemonUnresponsive(Exception):
+    """complete, well-formed requests went unanswered several times in a row: the daemon no longer serves"""
+
+    def __init__(self, path, history):
+        Exception.__init__(self, "daemon at %s left %d consecutive complete requests unanswered" % (path, SILENCE_LIMIT))
+        self.history = history
+
+
+SILENCE_LIMIT = 4
+_silent = {}
+_history = []
+
+
 def transact(path, raw, uid=None, gid=None, timeout=5.0):
-    """Send raw bytes (header+body), read one reply. Returns (hdr_tuple or None, body bytes, raw reply)."""
+    """Send raw bytes (header+body), read one reply. Returns (hdr_tuple or None, body bytes, raw reply).
+    A request whose header announces exactly the bytes that follow is owed a reply; SILENCE_LIMIT such requests in a row
+    that time out raise DaemonUnresponsive (reported by vlib.main_entry as a violation with the request history) instead
+    of letting a check crawl through thousands of 5-second timeouts against a deadlocked daemon."""
+    r = _transact(path, raw, uid, gid, timeout)
+    complete = len(raw) >= 11 and raw[:4] == MAGIC_BYTES and struct.unpack(">I", raw[7:11])[0] == len(raw) - 11
+    _history.append({"uid": uid, "gid": gid, "req_hex": raw[:400].hex(), "req_len": len(raw), "status": r[3]})
+    del _history[:-40]
+    if r[3] == "timeout" and complete:
+        _silent[path] = _silent.get(path, 0) + 1
+        if _silent[path] >= SILENCE_LIMIT:
+            _silent[path] = 0
+            raise DaemonUnresponsive(path, list(_history))
+    elif r[3] == "ok":
+        _silent[path] = 0
+    return r
+
+
+def _transact(path, raw, uid=None, gid=None, timeout=5.0):
     try:
         s = connect_as(path, uid, gid, timeout)
     except OSError as e:
